@@ -312,20 +312,20 @@ func runAdmitScenario(col *trace.Collector, rng *rand.Rand, idx int) (hooks []ve
 			viol = append(viol, Violation{"C11:admissible-session-closed", fmt.Sprintf("session %d (%+v) was closed although it behaved (%s)", i, s, s.Follow), desc})
 		}
 	}
-	// quiescence: every connection change requests a rebuild; wait for one that is newer than the last change
-	lastChange := h0
-	evs := col.Since(h0)
-	for k, r := range evs {
-		if r["n"] == vn && (r["ev"] == "known_del" || r["ev"] == "known_add" || r["ev"] == "conn_del") {
-			lastChange = h0 + k + 1
+	// quiescence, in this order: (1) every session whose link is cut has been ended by the node (its sess_end event
+	// comes after the connection and adjacency have been cleaned up and before the rebuild is requested);
+	// (2) no stale connection is listed; (3) a rebuild newer than the last adjacency change has been done.
+	for i, lv := range lives {
+		if !lv.p.EOF() {
+			continue
+		}
+		label := fmt.Sprintf("%p", lv.p.Pipe.A)
+		if _, ok := col.WaitFor(h0, 20*time.Second, func(r verifhook.Record) bool {
+			return r["n"] == vn && r["ev"] == "sess_end" && r["sess"] == label
+		}); !ok {
+			return nil, nil, fmt.Sprintf("session %d: link cut but the node never ended the session", i), desc, 0
 		}
 	}
-	if lastChange > h0 {
-		if _, ok := col.WaitFor(lastChange, 20*time.Second, evForNode(vn, "rebuild")); !ok {
-			return nil, nil, "no rebuild after the last connection change", desc, 0
-		}
-	}
-	// sessions that ended must be forgotten: wait for the node to finish removing them
 	deadline := time.Now().Add(10 * time.Second)
 	for {
 		snap := n.N.VerifSnapshot()
@@ -350,6 +350,17 @@ func runAdmitScenario(col *trace.Collector, rng *rand.Rand, idx int) (hooks []ve
 			break
 		}
 		time.Sleep(5 * time.Millisecond)
+	}
+	lastChange := h0
+	for k, r := range col.Since(h0) {
+		if r["n"] == vn && (r["ev"] == "known_del" || r["ev"] == "known_add" || r["ev"] == "conn_del") {
+			lastChange = h0 + k + 1
+		}
+	}
+	if lastChange > h0 {
+		if _, ok := col.WaitFor(lastChange, 20*time.Second, evForNode(vn, "rebuild")); !ok {
+			return nil, nil, "no rebuild after the last connection change", desc, 0
+		}
 	}
 	st := n.N.Status()
 	costs := map[string]float64{}
